@@ -4,7 +4,7 @@ CONSTANTS
   Rejected = {}
   TruncPoints = {}
   Spellings = {"rel", "abs", "gofile", "both"}
-  Cwds = {"pkg", "root", "sibling"}
+  Cwds = {"pkg", "root", "sibling", "outside"}
   RecordHist = FALSE
   MaxHist = 0
   FlagSets <- AllFlags
